@@ -160,4 +160,18 @@ prop("C19",
                 wraps=["read", "write", "select", "socket", "bind", "listen", "connect", "accept"],
                 args={"quick": ["--k=4", "--dev=2", "--depth=5"], "thorough": ["--k=6", "--dev=3", "--depth=7"]})],
      deadline={"quick": 240, "thorough": 3000})
+
+
+_MW = ["malloc", "calloc", "realloc", "free"]
+prop("C15",
+     level="model_checking",
+     technique="explicit-state BFS over tracked allocation histories through the real MALLOC/CALLOC/REALLOC/STRDUP/FREE macros vs a dictionary model of the tracker table (mem.c compiled into the harness TU); allocator interposed to choose realloc moves/stays",
+     rule="E1: BFS over histories of the five tracked operations on a small pointer pool incl. REALLOC of NULL / to 0, unknown and already-freed pointers, with the allocator's move/stay answer chosen by the harness, "
+          "to a fixpoint of (slot size/line/tracked, dead-pointer) states, for runtime levels 5 and 4 in a DEBUG=5 build and for a DEBUG=4 build; after every step the private table equals the model as a set "
+          "(address, size, 20-char file, line); plus the C06 object programs in a DEBUG=5 build at level 5: table empty after every teardown; non-trivial = distinct states",
+     bounds={"quick": "pool of 2 pointers, fixpoint; object programs depth 2", "thorough": "pool of 3 pointers, fixpoint; object programs depth 3"},
+     runs=[dict(name="h_memtrack5", sources=["harness/h_memtrack.c"], profile="asan_dbg5", exclude=["mem.c"], wraps=_MW, args={"quick": ["--pool=2"], "thorough": ["--pool=3"]}),
+           dict(name="h_memtrack4", sources=["harness/h_memtrack.c"], profile="asan_dbg4", exclude=["mem.c"], wraps=_MW, args={"quick": ["--pool=2"], "thorough": ["--pool=3"]}),
+           dict(name="h_own_track", sources=["harness/h_own.c"], profile="asan_dbg5", exclude=["mem.c"], cflags=["-DVERIF_TRACKCHECK"], args={"quick": ["--depth=2"], "thorough": ["--depth=3"]})],
+     deadline={"quick": 240, "thorough": 3000})
 NOT_CLAIMED = {}
